@@ -123,6 +123,21 @@ def body(run):
         with np.errstate(invalid='ignore'):
             ptol = 0.0 if aligned else (1e-4 * np.maximum(np.abs(pa), np.abs(pb)) + 1e-3)
             pbad = ~((pa == pb) | (np.isnan(pa) & np.isnan(pb)) | (np.abs(pa - pb) <= ptol))
+        if model == 'gain-offset' and not aligned and one['proc_crs'] == 'ref' and pb.shape[0] % 3 == 0 and pbad[2 * (pb.shape[0] // 3):].any():
+            # ... and the R2 band, evaluated in float32 as 1 - RSS / TSS from expanded kernel sums, carries the cancellation noise of
+            # TSS = N * sum(r^2) - sum(r)^2: ~ eps32 * N * sum(r^2) / TSS, computed here per window in float64 from the files (values above 1,
+            # which no exact R2 takes, are the same noise); 16 eps32 of it is allowed on top of the fixed tolerance
+            from harness import impl_e2e as e2e_
+            try:
+                cw, rw_ = e2e_.r2_noise(pair['src_fn'], pair['ref_fn'], kshape)
+                nb_ = pb.shape[0] // 3
+                cond = np.zeros((nb_,) + pa.shape[1:])
+                r0_, c0_ = (int(rw_.row_off), int(rw_.col_off)) if pa.shape[1:] != cw.shape[1:] else (0, 0)
+                cond[:, r0_:r0_ + cw.shape[1], c0_:c0_ + cw.shape[2]] = cw
+                with np.errstate(invalid='ignore'):
+                    pbad[2 * nb_:] &= ~(np.abs(pa[2 * nb_:] - pb[2 * nb_:]) <= ptol[2 * nb_:] + 16 * 6e-8 * cond)
+            except Exception:
+                pass
         # general geometries, gain-offset: a window with two or three nearly collinear points gives an ill-conditioned least-squares problem
         # (huge gain / offset, corrected values far outside the data range) that amplifies the last-bit noise beyond any fixed tolerance;
         # such parameter pixels - recognised on the ONE-block run by |gain| > 5 or |offset| > 200 on data in 20 .. 220 - are not judged
